@@ -8,7 +8,9 @@ WS = [" ", "\t", "\r", "\n"]
 # one representative per character class the tokenizer distinguishes, plus words that exercise keyword lookup
 SYMBOLS = SPECIALS + DELIMS + ["1", "0", ".", "e", "E", "\"", "'", ";", ",", " ", "\t", "\r", "\n",
           "a", "_", "Z", "é", "€", "\U0001F600", "#", "~", "@", "in", "not", "true", "False",
-          "beginWith", "<<=", "AND"]
+          "beginWith", "<<=", "AND",
+          # Unicode White_Space / format characters that are NOT whitespace for this tokenizer (str::trim would strip them)
+          "\u00a0", "\u000b", "\u000c", "\u2028", "\u3000", "\ufeff"]
 
 def symbol_strings(symbols, maxlen):
     for n in range(0, maxlen + 1):
